@@ -1,7 +1,7 @@
 (* Property C09 — emergency exit penalty is bounded, decays to zero and is fully accounted for.
    Statements only; proofs in Proofs/WeightProofs.v and Proofs/FarmProofs.v. *)
-From MD.Model Require Import Base Ownable Epoch PoolMath Types PoolManager FarmManager.
-From MD.Proofs Require Import WeightProofs FarmProofs.
+From MD.Model Require Import Base Ownable Epoch PoolMath Types PoolManager FarmManager Chain.
+From MD.Proofs Require Import BankProofs WeightProofs FarmProofs TxBalances.
 
 (* the penalty rate: min(base x remaining-lock fraction x weight multiplier, 90%), every factor an 18-digit
    fixed-point number, every product floored *)
@@ -61,9 +61,35 @@ Example C09_nonvacuous :
     (PCT 10) (100000 - 43200) = Ok (PCT 5).
 Proof. vm_compute. reflexivity. Qed.
 
+(* THE WHOLE TRANSACTION, every bank balance: an emergency withdrawal either finds the position already unlocked and
+   returns the whole recorded amount to its owner, or makes exactly these transfers out of the farm manager, all in the
+   position's LP denom: [per] to each owner of a currently active farm, [collector] to the fee collector (all of the
+   penalty when there is no such owner), the rest to the position's owner; penalty < amount and <= 90% of it;
+   nobody else's balance changes *)
+Theorem C09_emergency_withdrawal_transaction_moves_exactly_these_balances : forall w sender funds id w',
+  run_tx w sender FM (WFm (FmPosWithdraw id (Some true))) funds = Ok w' ->
+  exists p, sfind pos_id id (fm_positions (w_fm w)) = Some p /\ pos_recv p = sender /\ funds = [] /\
+    let lp := denom_of (pos_lp p) in let amount := amount_of (pos_lp p) in
+    ((exists e, pos_exp p = Some e /\ e <= seconds (w_block w)) /\
+     forall a d, bal (w_bank w') a d = bal (w_bank w) a d
+                 + leaves_eff FM (w_tf_fee w) (if amount =? 0 then [] else [send_to sender lp amount]) a d)
+    \/
+    (position_is_expired p (seconds (w_block w)) = false /\
+     exists tp owners per collector,
+      0 <= tp < amount /\ tp * 10 <= amount * 9 /\ 0 <= per /\ 0 <= collector /\
+      Z.of_nat (List.length owners) * per + collector <= tp /\ (owners = [] -> collector = tp) /\
+      forall a d,
+        bal (w_bank w') a d = bal (w_bank w) a d
+          + leaves_eff FM (w_tf_fee w)
+              (map (fun o => send_to o lp per) owners ++
+               (if 0 <? collector then [send_to (fm_fee_collector (fm_cfg (w_fm w))) lp collector] else []) ++
+               (if ssub amount tp =? 0 then [] else [send_to sender lp (ssub amount tp)])) a d).
+Proof. exact emergency_withdraw_tx_balances. Qed.
+
 Print Assumptions C09_penalty_formula.
 Print Assumptions C09_penalty_never_above_cap.
 Print Assumptions C09_penalty_never_increases_with_time.
 Print Assumptions C09_penalty_zero_once_unlocked.
 Print Assumptions C09_withdrawal_accounting.
 Print Assumptions C09_nonvacuous.
+Print Assumptions C09_emergency_withdrawal_transaction_moves_exactly_these_balances.
